@@ -78,6 +78,7 @@ type A struct {
 	allFuncs map[*ssa.Function]bool
 
 	locks    *Locks
+	taint    *Taint
 	apiReach map[*ssa.Function]bool
 
 	obs      []*Ob
